@@ -177,12 +177,26 @@ def judge_ir(ctx, cases, prop):
     """Run IR.tla over the cases; every ObsPreserved error is a violation of `prop`."""
     if not cases:
         return None
-    slim = [{k: c[k] for k in ("id", "mods", "fn", "argv", "ext", "fuel")} for c in cases]
-    path = ctx.trace_file(slim)
-    res = ctx.tlc("IR", IR_CFG, label="IR behaviours", env={"TRACE_FILE": path}, continue_=True, heap="12g")
     import os
 
-    os.unlink(path)
+    class _Res:
+        errors = []
+
+    res = _Res()
+    res.errors = []
+    batch = 250
+    for b0 in range(0, len(cases), batch):
+        part = cases[b0:b0 + batch]
+        slim = [{k: c[k] for k in ("id", "mods", "fn", "argv", "ext", "fuel")} for c in part]
+        path = ctx.trace_file(slim)
+        r = ctx.tlc("IR", IR_CFG, label="IR behaviours %d-%d" % (b0, b0 + len(part)), env={"TRACE_FILE": path},
+                    continue_=True, heap="12g", timeout=3600)
+        os.unlink(path)
+        for e in r.errors:
+            i_ = e.last.get("i")
+            if isinstance(i_, int) and i_ >= 1:
+                e.states[-1][1]["i"] = i_ + b0
+            res.errors.append(e)
     seen = set()
     for e in res.errors:
         st = e.last
@@ -208,7 +222,7 @@ class Engine:
     LEVEL = "model_checking"
 
     def run(self, ctx):
-        nprog = 12 if ctx.tier == "quick" else 200
+        nprog = 12 if ctx.tier == "quick" else 80
         ctx.rule("generated C programs (harness/absprog.py) compiled by c_to_ir; every single pass on a fresh module, "
                  "optimize() at levels 1,2,s,3 with a snapshot after every pass, random pass sequences; IR.tla executes "
                  "the input module and every distinct later snapshot on 6-10 argument vectors and TLC checks "
